@@ -24,10 +24,11 @@ ASSUMPTIONS = ["NumPy ufuncs are the definition of the 18 elementary functions",
 
 
 @st.composite
-def cases(draw):
-    env = draw(gen.envs())
+def cases(draw, tier="quick"):
+    big = tier == "thorough"
+    env = draw(gen.envs(max_vec=10 if big else 6, max_mat=4 if big else 3))
     g = gen.G(draw, env, gen.Cfg())
-    recipe = g.S(draw(st.integers(1, 4)))
+    recipe = g.S(draw(st.integers(1, 5 if big else 4)))
     used = gen.used_vars(recipe, env)
     stratum, order = draw(gen.orders(used, env))
     pts = draw(gen.points(gen.all_var_names(env), k=3))
@@ -38,7 +39,7 @@ def cases(draw):
 
 
 def strategy(tier):
-    return cases()
+    return cases(tier)
 
 
 def sample_repr(case):
